@@ -497,7 +497,7 @@ class _:
 class _:
     def run(a, ins, q, r):
         from dimarray.lib.stats import percentile
-        return percentile(a, q, axis=r)
+        return percentile(a, q, axis=tuple(r) if isinstance(r, list) else r)
     def coq(q, r): raise Unsupported('percentile is checked by the oracle only (np.percentile is not modelled)')
 
 @op('compare')
